@@ -38,7 +38,7 @@ Bytes(d, o, n) == SubSeq(d, o + 1, o + n)
 HostByte(b) == (b >= 97 /\ b <= 122) \/ (b >= 65 /\ b <= 90) \/ (b >= 48 /\ b <= 57) \/ b = 45 \/ b = 95
 HostLabel(l) == \A i \in 1..Len(l) : HostByte(l[i])
 
-BadName == [ok |-> FALSE, labels |-> <<>>, next |-> 0, jumps |-> 0, wf |-> FALSE, size |-> 0]
+BadName == [ok |-> FALSE, labels |-> <<>>, next |-> 0, jumps |-> 0, wf |-> FALSE, wfl |-> FALSE, size |-> 0]
 
 \* `seen` = offsets of the pointers already followed for this name.  A pointer met a second time means the name never
 \* ends (a loop, whether or not ordinary labels lie on it): with fuel alone such a name is rejected after Len(d)
@@ -48,24 +48,31 @@ RECURSIVE DecN(_, _, _, _)
 DecN(d, o, fuel, seen) ==
   IF ~Has(d, o, 1) THEN BadName
   ELSE LET len == B(d, o) IN
-    IF len = 0 THEN [ok |-> TRUE, labels |-> <<>>, next |-> o + 1, jumps |-> 0, wf |-> TRUE, size |-> 1]
+    IF len = 0 THEN [ok |-> TRUE, labels |-> <<>>, next |-> o + 1, jumps |-> 0, wf |-> TRUE, wfl |-> TRUE, size |-> 1]
     ELSE IF len >= 192 THEN
       IF ~Has(d, o, 2) \/ fuel = 0 \/ o \in seen THEN BadName
       ELSE LET tgt == (len - 192) * 256 + B(d, o + 1)
                r == DecN(d, tgt, fuel - 1, seen \cup {o})
            IN IF ~r.ok THEN BadName
               ELSE [ok |-> TRUE, labels |-> r.labels, next |-> o + 2, jumps |-> r.jumps + 1,
-                    wf |-> r.wf /\ tgt < o /\ tgt >= 12 /\ r.labels # <<>>, size |-> r.size]
+                    wf |-> r.wf /\ tgt < o /\ tgt >= 12 /\ r.labels # <<>>,
+                    wfl |-> r.wfl /\ tgt < o /\ tgt >= 12 /\ r.labels # <<>>, size |-> r.size]
     ELSE IF ~Has(d, o + 1, len) THEN BadName
     ELSE LET r == DecN(d, o + 1 + len, fuel, seen)
              lab == Bytes(d, o + 1, len)
          IN IF ~r.ok THEN BadName
             ELSE [ok |-> TRUE, labels |-> <<lab>> \o r.labels, next |-> r.next, jumps |-> r.jumps,
-                  wf |-> r.wf /\ len <= 63 /\ HostLabel(lab), size |-> r.size + len + 1]
+                  wf |-> r.wf /\ len <= 63 /\ HostLabel(lab),
+                  wfl |-> r.wfl /\ HostLabel(lab),      \* lax: length octets 64..191 (reserved label types) taken as lengths
+                  size |-> r.size + len + 1]
 DecName(d, o, fuel) == DecN(d, o, fuel, {})
 
 Name(d, o) == DecName(d, o, Len(d))
 WfName(n) == n.ok /\ n.wf /\ n.jumps <= WfMaxJumps /\ n.size <= 255
+\* lax = TRUE: the TOLERATED class - as well-formed, except that label lengths 64..191 and names over 255 bytes are
+\* accepted (the code takes every length octet below 192 as a plain length).  For such replies the outcome is: ignored,
+\* or exactly the result read this way.
+WfNameM(n, lax) == IF lax THEN n.ok /\ n.wfl /\ n.jumps <= WfMaxJumps ELSE WfName(n)
 
 \* ---------------------------------------------------------------- resource records
 TypeA == 1
@@ -73,9 +80,9 @@ TypeCNAME == 5
 BadRec == [ok |-> FALSE, next |-> 0, type |-> 0, ttl |-> <<>>, addr |-> <<>>, labels |-> <<>>]
 
 \* a well-formed record starting at offset o (ok = well-formed)
-Rec(d, o) ==
+Rec(d, o, lax) ==
   LET n == Name(d, o) IN
-  IF ~WfName(n) \/ ~Has(d, n.next, 10) THEN BadRec
+  IF ~WfNameM(n, lax) \/ ~Has(d, n.next, 10) THEN BadRec
   ELSE LET p == n.next
            type == U16(d, p)
            class == U16(d, p + 2)
@@ -87,17 +94,17 @@ Rec(d, o) ==
              ELSE [ok |-> TRUE, next |-> rd + 4, type |-> type, ttl |-> Bytes(d, p + 4, 4), addr |-> Bytes(d, rd, 4), labels |-> <<>>]
           ELSE IF type = TypeCNAME THEN
              LET c == Name(d, rd) IN
-             IF ~WfName(c) \/ c.next # rd + rdlen THEN BadRec
+             IF ~WfNameM(c, lax) \/ c.next # rd + rdlen THEN BadRec
              ELSE [ok |-> TRUE, next |-> rd + rdlen, type |-> type, ttl |-> Bytes(d, p + 4, 4), addr |-> <<>>, labels |-> c.labels]
           ELSE [ok |-> TRUE, next |-> rd + rdlen, type |-> type, ttl |-> Bytes(d, p + 4, 4), addr |-> <<>>, labels |-> <<>>]
 
 BadRecs == [ok |-> FALSE, next |-> 0, recs |-> <<>>]
-RECURSIVE Recs(_, _, _)
-Recs(d, o, cnt) ==
+RECURSIVE Recs(_, _, _, _)
+Recs(d, o, cnt, lax) ==
   IF cnt = 0 THEN [ok |-> TRUE, next |-> o, recs |-> <<>>]
-  ELSE LET r == Rec(d, o) IN
+  ELSE LET r == Rec(d, o, lax) IN
        IF ~r.ok THEN BadRecs
-       ELSE LET rest == Recs(d, r.next, cnt - 1) IN
+       ELSE LET rest == Recs(d, r.next, cnt - 1, lax) IN
             IF ~rest.ok THEN BadRecs ELSE [ok |-> TRUE, next |-> rest.next, recs |-> <<r>> \o rest.recs]
 
 IsA(r) == r.type = TypeA
@@ -108,7 +115,7 @@ NoRes == [a |-> <<>>, cn |-> <<>>]
 Cls(c, id, r) == [cls |-> c, id |-> id, res |-> r]
 
 \* qname: the labels of the name the lookup asked for
-Classify(d, qname) ==
+ClassifyM(d, qname, lax) ==
   IF Len(d) < 2 THEN Cls("short", 0, NoRes)
   ELSE LET id == U16(d, 0) IN
   IF Len(d) < 4 THEN Cls("malformed", id, NoRes)
@@ -123,9 +130,9 @@ Classify(d, qname) ==
   ELSE LET q == Name(d, 12) IN
   IF ~WfName(q) \/ q.labels # qname \/ ~Has(d, q.next, 4) THEN Cls("malformed", id, NoRes)
   ELSE IF U16(d, q.next) # 1 \/ U16(d, q.next + 2) # 1 THEN Cls("malformed", id, NoRes)
-  ELSE LET an == Recs(d, q.next + 4, U16(d, 6)) IN
+  ELSE LET an == Recs(d, q.next + 4, U16(d, 6), lax) IN
   IF ~an.ok THEN Cls("malformed", id, NoRes)
-  ELSE LET rest == Recs(d, an.next, U16(d, 8) + U16(d, 10)) IN
+  ELSE LET rest == Recs(d, an.next, U16(d, 8) + U16(d, 10), lax) IN
   IF ~rest.ok \/ rest.next # Len(d) THEN Cls("malformed", id, NoRes)
   ELSE IF rcode = 0 THEN
          Cls("ok", id, [a |-> [i \in 1..Len(SelectSeq(an.recs, IsA)) |->
@@ -135,6 +142,12 @@ Classify(d, qname) ==
   ELSE IF rcode = 3 THEN Cls("nxdomain", id, NoRes)
   ELSE IF rcode = 1 THEN Cls("formerr", id, NoRes)
   ELSE Cls("servfail", id, NoRes)
+Classify(d, qname) == ClassifyM(d, qname, FALSE)
+\* "tolerated": not well-formed, but a reply with rcode 0 that is well-formed when read the lax way
+ClassifyT(d, qname) ==
+  LET c == Classify(d, qname) IN
+  IF c.cls # "malformed" \/ Len(d) < 12 THEN c
+  ELSE LET t == ClassifyM(d, qname, TRUE) IN IF t.cls = "ok" THEN Cls("tolerated", t.id, t.res) ELSE c
 
 \* ---------------------------------------------------------------- OnlyEncoded
 IsSub(s, d) == Len(s) = 0 \/ \E i \in 0..(Len(d) - Len(s)) : Bytes(d, i, Len(s)) = s
